@@ -529,6 +529,67 @@ func genNested(g *common.Gen) {
 	g.Stat("scenario.nested-prefix")
 }
 
+// genReRegister: an existing route is registered again (same prefix, face, origin) with another
+// cost or other flags (child-inherit / capture switched), with a child entry below that inherits
+// from it; fib/list is read right after, before anything else touches the branch.
+func genReRegister(g *common.Gen) {
+	r := g.R
+	parent := common.Pick(r, []string{"/8:61", "/8:62", "/8:61/8:63", "/"})
+	child := parent + "/8:7a"
+	if parent == "/" {
+		child = "/8:7a"
+	}
+	x := common.Pick(r, []string{"2", "3", "4"})
+	y := common.Pick(r, []string{"5", "3", "2"})
+	origin := common.Pick(r, []string{"", "", ";O=128"})
+	cmd := func(module, verb, params string, tail int) {
+		g.Op("cmd %d - %s %s %s %d %s", fA, pLocalhost, gc(module), gc(verb), tail, params)
+	}
+	cmd("rib", "register", "N="+parent+";F="+x+origin+";C="+common.Pick(r, []string{"5", "10"})+";G="+common.Pick(r, []string{"1", "1", "3"}), 1)
+	if r.Chance(2, 3) {
+		cmd("rib", "register", "N="+child+";F="+y+";C=20"+common.Pick(r, []string{"", "", ";G=0", ";G=2"}), 1)
+	}
+	// the same route again, changed
+	cmd("rib", "register", "N="+parent+";F="+x+origin+common.Pick(r, []string{";C=1", ";C=7;G=0", ";G=0", ";C=10;G=2", ";C=30;G=3", ";C=2;G=1"}), 1)
+	cmd("fib", "list", "-", 0)
+	cmd("rib", "list", "-", 0)
+	g.Stat("scenario.re-register")
+}
+
+// genRemoveBelow: fib/remove-nexthop addressed to prefixes that have no FIB entry (never
+// registered, or already removed) below an entry that carries the named or defaulted face;
+// duplicate removes; fib/list right after.
+func genRemoveBelow(g *common.Gen) {
+	r := g.R
+	parent := common.Pick(r, []string{"/8:61", "/8:62", "/8:61/8:62", "/8:63"})
+	below := parent + common.Pick(r, []string{"/8:71", "/8:71/8:72", "/8:62/8:63"})
+	x := common.Pick(r, []string{"2", "2", "3", "4"})
+	cmd := func(module, verb, params string, tail int) {
+		g.Op("cmd %d - %s %s %s %d %s", fA, pLocalhost, gc(module), gc(verb), tail, params)
+	}
+	if r.Chance(1, 2) {
+		cmd("fib", "add-nexthop", "N="+parent+";F="+x+";C=4", 1)
+	} else {
+		cmd("rib", "register", "N="+parent+";F="+x+";C=4", 1)
+	}
+	if r.Chance(1, 3) {
+		cmd("fib", "add-nexthop", "N="+parent+";F=5;C=6", 1)
+	}
+	face := ";F=" + x
+	if x == "2" && r.Chance(1, 2) {
+		face = "" // the default: the requesting face (2)
+	}
+	cmd("fib", "remove-nexthop", "N="+below+face, 1)
+	cmd("fib", "list", "-", 0)
+	if r.Chance(1, 2) {
+		cmd("fib", "remove-nexthop", "N="+parent+face, 1)
+		cmd("fib", "remove-nexthop", "N="+parent+face, 1) // duplicate
+		cmd("fib", "remove-nexthop", "N="+below+face, 1)
+		cmd("fib", "list", "-", 0)
+	}
+	g.Stat("scenario.remove-below")
+}
+
 func gen(g *common.Gen) {
 	for i := 0; i < g.N; i++ {
 		lh := g.R.Intn(2)
@@ -536,13 +597,25 @@ func gen(g *common.Gen) {
 		g.Op("new lh=%d fib=%s", lh, alg)
 		g.Stat("config.lh" + fmt.Sprint(lh) + "." + alg)
 		n := g.R.Range(8, 16)
-		nestedAt := -1
+		nestedAt, reregAt, removeAt := -1, -1, -1
 		if g.R.Chance(1, 3) {
 			nestedAt = g.R.Intn(n)
+		}
+		if g.R.Chance(1, 3) {
+			reregAt = g.R.Intn(n)
+		}
+		if g.R.Chance(1, 3) {
+			removeAt = g.R.Intn(n)
 		}
 		for k := 0; k < n; k++ {
 			if k == nestedAt {
 				genNested(g)
+			}
+			if k == reregAt {
+				genReRegister(g)
+			}
+			if k == removeAt {
+				genRemoveBelow(g)
 			}
 			genOp(g)
 		}
